@@ -28,7 +28,7 @@ FLOOR = {"quick": 40, "thorough": 300}
 
 
 def parts(tier):
-    return [{"name": "e2e", "n": 640 if tier == "quick" else 12000}]
+    return [{"name": "e2e", "n": 960 if tier == "quick" else 12000}]
 
 
 @gen.st.composite
